@@ -11,7 +11,8 @@
 (*                      drained (it kept reading until EOF/error),         *)
 (*                      abandoned (opened by a dial attempt given up),     *)
 (*                      opened (the upstream server accepted a connection) *)
-(*   t.err              error returned by the handler ("" if none)         *)
+(*   t.err, t.dialErr   error returned by the handler ("" if none); it is  *)
+(*                      the error of a failed dial                         *)
 (*   t.crecv[u]         n, intact: what the client read of upstream u's    *)
 (*                      bytes is a prefix of what u sent                   *)
 (*   t.ceof             the client saw end of stream                       *)
@@ -28,7 +29,7 @@ U(t) == { u \in DOMAIN t.ups : ~t.ups[u].abandoned /\ t.ups[u].opened }
 \* nobody aborted: no reset - and the client did not CLOSE (both directions) while upstream bytes were still unread
 \* on its side, which TCP turns into a reset of the connection
 NoReset(t) == /\ t.cend # "rst" /\ \A u \in U(t) : t.ups[u].end # "rst"
-              /\ t.err = ""                 \* the handler did not give up on a dial error
+              /\ ~t.dialErr                 \* the handler did not give up on a dial error
               /\ ~(t.cend = "close" /\ \E u \in U(t) : t.crecv[u].n < t.ups[u].sent)
 
 \* P1: each upstream reads the client's stream exactly once, in order, from its first
@@ -45,9 +46,12 @@ P3(t) == (t.cend = "fin" /\ NoReset(t)) => \A u \in U(t) : t.ups[u].drained => t
 \* P4: when every upstream has finished sending, the client observes end of stream
 P4(t) == (NoReset(t) /\ t.cend = "fin" /\ t.cdrained) => t.ceof
 \* P5: then the handler returns and every upstream connection it opened is closed
+\* P0: the handler returns no error other than a failed dial (anything else would make the clauses below vacuous)
+P0(t) == t.err = "" \/ t.dialErr
 P5(t) == t.returned /\ \A u \in DOMAIN t.ups : t.ups[u].opened => t.ups[u].closedAfterReturn
 
 ProxyViolations(t) ==
+  (IF P0(t) THEN {} ELSE {"P0 the handler chain returned an error that is not a dial failure"}) \cup
   (IF P1(t) THEN {} ELSE {"P1 an upstream did not receive the client's stream exactly once in order"})
   \cup (IF P2(t) THEN {} ELSE {"P2 the client did not receive an upstream's bytes in order / completely"})
   \cup (IF P3(t) THEN {} ELSE {"P3 the client's end of stream did not reach every upstream"})
